@@ -105,7 +105,7 @@ def programs(draw, tier="quick"):
     for a in actors:
         if draw(st.integers(0, 3)) == 0:
             a["ops"].append(["sleep", draw(st.sampled_from(SLEEPS))])
-    kinds = ["comm"] * 7 + ["exec", "sleep", "wait", "wait", "remote_exec", "remote_exec"] + (["io"] * 2 if disks else []) + ["join", "mutex"]
+    kinds = ["comm"] * 7 + ["exec", "sleep", "wait", "wait", "remote_exec", "remote_exec", "sendto"] + (["io"] * 2 if disks else []) + ["join", "mutex"]
 
     def new_handle():
         next_h[0] += 1
@@ -156,6 +156,16 @@ def programs(draw, tier="quick"):
                 ops.append(["io", d, draw(st.sampled_from(SIZES[:3])), draw(st.sampled_from(["read", "write"])), {}])
         elif kind == "sleep":
             ops.append(["sleep", draw(st.sampled_from(SLEEPS))])
+        elif kind == "sendto":
+            # a host-to-host communication (Comm::sendto): the actor may sit on a third host
+            src = draw(st.sampled_from(workers))
+            dst = draw(st.sampled_from([w for w in workers if w != src]))
+            if draw(st.integers(0, 2)) == 0:
+                h = new_handle()
+                ops.append(["sendto_async", src, dst, draw(st.sampled_from(SIZES[:4])), h])
+                pending[k].append(h)
+            else:
+                ops.append(["sendto", src, dst, draw(st.sampled_from(SIZES[:4]))])
         elif kind == "wait":
             if len(pending[k]) >= 2 and draw(st.integers(0, 3)) > 0:
                 ops.append(["wait_any", list(pending[k]), {}])          # the handles stay pending: waited again at the end
@@ -608,6 +618,19 @@ class Replay:
             if o == "io_async":
                 self.handles[op[4]] = act
             self.start_act(act, t, n)
+        elif o in ("sendto", "sendto_async"):
+            act = Act("comm", (name, idx))
+            act.send, act.recv = (name, idx, False), (name, idx)
+            act.src, act.dst = op[1], op[2]
+            act.uses = self.comm_uses(op[1], op[2])
+            if self.plat.route(op[1], op[2]) is not None:
+                act.lat = self.plat.latency(op[1], op[2])
+            act.third_party = a["host"] not in (op[1], op[2])
+            self.acts[(name, idx)] = act
+            if o == "sendto_async":
+                self.handles[op[4]] = act
+            self.labels.add("sendto" + (":third-party" if act.third_party else ""))
+            self.start_act(act, t, n)
         elif o in ("xput", "put_async", "put_detach"):
             act = self.post(name, idx, op[1], "send", o == "put_detach", t, n)
             if o == "put_async":
@@ -860,6 +883,12 @@ def check_one(case, faults, ref):
         names = {x[1] for x in rp.resolve(f["res"], f["name"])}
         seen = [s for s in rp.switches if s[0] == f["res"] and s[1] in names and s[2] == f["on"]]
         if not seen:
+            t_end = max([T(l["t"]) for l in log.lines if l.get("k") in ("end", "deadlock")] or [0.0])
+            if f["how"] == "profile" and t_end <= f["date"]:
+                # the simulation was over (everybody blocked) when the clock reached the date of the event: pending profile events do not keep a
+                # simulation alive (EngineImpl::solve, documented there by a FIXME); nothing to check in this run
+                rp.labels.add("profile-event-after-the-end")
+                return rp, [], log
             return rp, [("harness-fault-not-injected", "the switch %s was not observed in the log" % describe([f]))], log
     pre = "under the schedule [%s]: " % describe(faults)
     return rp, [(s, pre + m) for s, m in rp.viol], log
